@@ -93,6 +93,8 @@ class Recorder:
         self.seen_X = numpy.array(X).copy()
         self.seen_y = numpy.array(y).copy()
         self.seen_w = None if sample_weight is None else numpy.array(sample_weight).copy()
+        # like kernel / neighbour models, it also KEEPS the arrays it was given (no copy)
+        self.kept_X, self.kept_y, self.kept_w = X, y, sample_weight
         # make the prediction depend on the training sample
         self.k_ = int(self.seen_y.sum()) % 11 if len(self.seen_y) else 0
         return self
@@ -257,6 +259,17 @@ def _one_config(n, alpha, ne, weights, seed, d=2, n_jobs=None):
     if abs((alpha * n + 0.5) - round(alpha * n + 0.5)) < 1e-9:
         ok_sizes |= {lo_size - 1, lo_size + 1}
     drawn = set()
+    for est in model.estimators_:
+        # a model that keeps a reference to its training arrays (a kernel model does) still holds ITS sample once
+        # all models are trained
+        kept_ok = numpy.array_equal(numpy.asarray(est.kept_X), est.seen_X) and \
+            numpy.array_equal(numpy.asarray(est.kept_y), est.seen_y) and \
+            (est.seen_w is None or numpy.array_equal(numpy.asarray(est.kept_w), est.seen_w))
+        if not kept_ok:
+            bad.append(("training-arrays-modified-after-fit", "the arrays a model was trained on are overwritten afterwards "
+                        "(a model keeping a reference to its training sample no longer holds the rows it was fitted on)",
+                        numpy.asarray(est.kept_X)[:3].tolist(), est.seen_X[:3].tolist()))
+            break
     for est in model.estimators_:
         if len(est.seen_y) not in ok_sizes:
             bad.append(("sample-size", "bootstrap sample size", len(est.seen_y), "round(alpha*n)=%d" % lo_size))
